@@ -123,6 +123,18 @@ EXTRA = [
                                         {"type": "record", "name": "Cat", "fields": [{"name": "lives", "type": "int"}]}]},
             {"name": "label", "type": "string", "default": "none"}]}},
         {"name": "spare", "type": ["null", "Cage"], "default": None}, {"name": "all", "type": {"type": "array", "items": "zoo.Cage"}, "default": []}]},
+    # named types first mentioned inside an "error" record
+    {"type": "record", "name": "Call", "namespace": "svc", "fields": [
+        {"name": "failure", "type": {"type": "error", "name": "Failure", "fields": [
+            {"name": "detail", "type": {"type": "record", "name": "Detail", "fields": [{"name": "code", "type": "int"}]}},
+            {"name": "more", "type": {"type": "array", "items": "Detail"}}, {"name": "level", "type": {"type": "enum", "name": "Level", "symbols": ["LOW", "HIGH"]}}]}},
+        {"name": "last", "type": ["null", "Detail"], "default": None}, {"name": "lvl", "type": "svc.Level", "default": "LOW"}]},
+    {"type": "error", "name": "TopFailure", "namespace": "svc", "fields": [
+        {"name": "detail", "type": {"type": "record", "name": "Detail", "fields": [{"name": "code", "type": "int"}]}}, {"name": "again", "type": {"type": "map", "values": "Detail"}}]},
+    # one named record used twice: first in the first field (the one a later reader drops), then again
+    {"type": "record", "name": "Trip", "namespace": "geo", "fields": [
+        {"name": "start", "type": {"type": "record", "name": "Place", "fields": [{"name": "lat", "type": "double"}, {"name": "tag", "type": "string"}]}},
+        {"name": "end", "type": "Place"}, {"name": "stops", "type": {"type": "array", "items": "geo.Place"}}, {"name": "n", "type": "int"}]},
     {"type": "record", "name": "Outer", "namespace": "u", "fields": [
         {"name": "pick", "type": [
             {"type": "record", "name": "First", "fields": [{"name": "x", "type": "int"}]},
@@ -223,6 +235,30 @@ def ops(fa, schema, d, raw_for_reader=None):
         res.append(list(fa.reader(io.BytesIO(fo.getvalue()), return_record_name=True)))
         return res
 
+    def skip_first_with_evolved_reader():
+        # data written under the form under test, read with a LATER version of the schema: the first top-level field is
+        # gone (its value is skipped using the WRITER's definitions) and every other record has gained a defaulted field
+        if raw_for_reader is None or '"error"' in json.dumps(raw_for_reader):
+            return None
+        node, defs = names.resolve(copy.deepcopy(raw_for_reader))
+        top = names.deref(node, defs)
+        if top["k"] != "record" or len(top["fields"]) < 2:
+            return None
+
+        def hook(full, d):
+            if full != top["name"]:
+                d["fields"].append({"name": "zz_added", "type": "int", "default": 7})
+
+        reader = names.to_schema(node, defs, field_filter=lambda full, i, f: not (full == top["name"] and i == 0), record_hook=hook)
+        try:
+            names.resolve(copy.deepcopy(reader))
+        except Exception:
+            return None
+        fo = io.BytesIO()
+        fa.schemaless_writer(fo, schema, d)
+        return fa.schemaless_reader(io.BytesIO(fo.getvalue()), schema, copy.deepcopy(reader))
+
+    out["first-field-skipped-under-evolved-reader"] = outcome(skip_first_with_evolved_reader)
     out["read-with-options"] = outcome(sl_options)
     out["as-reader-schema"] = outcome(resolve)
     out["as-reader-with-added-fields"] = outcome(resolve_added)
